@@ -30,7 +30,7 @@
 //!                                     item with the real plugins (none failing), or not the single error response the
 //!                                     first failure produces
 //!   pipeline/sibling-responses-lost   a plugin fails on one expanded query and its siblings get no response (known)
-//!   pipeline/invariant-error-loses-request   a plugin left a non-object: one invariant error, placeholder request (known)
+//!   pipeline/invariant-error-loses-request   a plugin left a non-object and the invariant error does not name the query
 //!   (keys of repaired defects — request-not-echoed, query-unanswered, unknown-origin-accepted, total-not-reproducible,
 //!    batch/empty, batch/whole-batch-error, inject/non-object, grid/degenerate — fire again if the defect returns)
 //!   pipeline/query-unanswered         a query got no response at all
@@ -1768,7 +1768,6 @@ fn run_case(ctx: &mut Ctx, fx: &Fixture, persist_cfg: bool, gens: &[GenQ], plans
         }
         // responses = ⨄ of the item-by-item answers, one response per expanded query (object queries: a non-object
         // is answered by the guard)
-        let mut invariant_broken = false;
         if let (Some(ideal), true) = (&rep.ideal[i], g.q.is_object()) {
             let total = ideal.dead + ideal.nonobj + ideal.live.len();
             let one_error = resp.len() == 1 && resp[0].get("error").is_some();
@@ -1779,17 +1778,21 @@ fn run_case(ctx: &mut Ctx, fx: &Fixture, persist_cfg: bool, gens: &[GenQ], plans
                 }
             } else if ideal.nonobj > 0 && ideal.dead == 0 {
                 // a plugin broke the invariant (an expanded "query" that is not an object): the pipeline answers the
-                // whole query with one invariant error and the placeholder request (known finding)
-                invariant_broken = true;
+                // whole query with one invariant error that names the original query (c053049: it named the placeholder);
+                // the expanded queries that were fine are lost with it (part of the known sibling-loss finding)
                 if one_error && resp[0].get("error") == Some(&json!("Invariant")) {
-                    ctx.fail(first_idx, "pipeline/invariant-error-loses-request", format!("a plugin left {} non-object item(s) among the {} queries that {} expands into: the whole query is answered with one invariant error whose request is the placeholder, under {}", ideal.nonobj, total, clip(&g.q.to_string()), fx.label));
+                    if resp[0].get("request") != Some(&g.q) {
+                        ctx.fail(first_idx, "pipeline/invariant-error-loses-request", format!("a plugin left {} non-object item(s) among the {} queries that {} expands into: the invariant error's request is {} instead of the query, under {}", ideal.nonobj, total, clip(&g.q.to_string()), clip(&resp[0].get("request").cloned().unwrap_or(Value::Null).to_string()), fx.label));
+                    }
+                    if total > 1 {
+                        ctx.fail(first_idx, "pipeline/sibling-responses-lost", format!("query {} expands (item by item, real plugins) into {} items, a plugin left {} of them a non-object, and only the invariant error came back under {}", clip(&g.q.to_string()), total, ideal.nonobj, fx.label));
+                    }
                 } else {
                     ctx.fail(first_idx, "pipeline/itemwise-mismatch", format!("query {} (a plugin left {} non-object items): expected one invariant error, got {}", clip(&g.q.to_string()), ideal.nonobj, clip(&Value::Array(resp.clone()).to_string())));
                 }
             } else {
                 // a plugin fails on some expanded query: the first failure ends the whole query (known finding when
                 // there were siblings)
-                invariant_broken = ideal.nonobj > 0;
                 if !one_error {
                     ctx.fail(first_idx, "pipeline/itemwise-mismatch", format!("query {} (a plugin fails on {} of its {} expanded queries): expected one error response, got {}", clip(&g.q.to_string()), ideal.dead, total, clip(&Value::Array(resp.clone()).to_string())));
                 } else if total > 1 {
@@ -1801,7 +1804,7 @@ fn run_case(ctx: &mut Ctx, fx: &Fixture, persist_cfg: bool, gens: &[GenQ], plans
             }
         }
         // each response carries the request it answers
-        if !invariant_broken && g.q != placeholder() && resp.iter().any(|r| r.get("request") == Some(&placeholder())) {
+        if g.q != placeholder() && resp.iter().any(|r| r.get("request") == Some(&placeholder())) {
             ctx.fail(first_idx, "pipeline/request-not-echoed", format!("query {} is answered with request {} (the query appears only in the error text) under {}", clip(&g.q.to_string()), placeholder(), fx.label));
         }
         if let Value::Object(qm) = &g.q {
@@ -2285,8 +2288,8 @@ pub fn run(ctx: &mut Ctx, profile: Profile) -> &'static str {
     }
     if let Some(i) = find("user_breaker") {
         let (fx, pc) = &fixtures[i];
-        // a user-defined plugin that breaks the invariant: invariant errors (placeholder request, known finding),
-        // an erased query, a two-level nesting, a mixed state made by one plugin
+        // a user-defined plugin that breaks the invariant: invariant errors (c053049: they named the placeholder
+        // request), an erased query, a two-level nesting, a mixed state made by one plugin
         let b: Vec<GenQ> = ["scalar", "null", "nested", "empty", "mixed", "none"].iter().map(|m| gq(json!({"origin_vertex": 0, "destination_vertex": 3, "break": m}), Expect::Any, "user_plugin_keys", None)).collect();
         run_case(ctx, fx, *pc, &b, simple(vec![None, Some(2)], 6), "corpus_invariant_breaker", 20);
     }
